@@ -43,7 +43,9 @@ type Sel struct {
 	RunEntries   []*ssa.Function // *Process methods reaching Launch, called from outside Process
 	ProcGo       []*ssa.Function // go-closures calling a RunEntry
 	Spawns       []*ssa.Function // functions containing those go statements
-	Gates        []*ssa.Function // functions branching on ProcessDependency.Condition
+	Gates        []*ssa.Function // functions branching on ProcessDependency.Condition (the one the goroutine calls)
+	GateSwitch     map[*ssa.Function]*ssa.Function // gate -> helper holding the comparisons, when extracted
+	GateSwitchCall map[*ssa.Function]*ssa.Call     // gate -> its call of that helper
 	Terminals    []*ssa.Function // *Process methods storing true to Process.done
 	StopCores    []*ssa.Function // *Process methods calling Commander.Stop(ShutDownParams.Signal,..)
 	RestartDecs  []*ssa.Function // bool *Process methods reading RestartPolicy.Restart
@@ -133,6 +135,22 @@ func (p *Prog) Selectors() *Sel {
 			}
 		})
 	}
+	// a stop core whose signalling tail was extracted: a helper with exactly one static caller, itself a Process
+	// method, is replaced by that caller (repeatedly) - the stop core is the function the stop requests call
+	for i, sc := range s.StopCores {
+		for depth := 0; depth < 3; depth++ {
+			crs := p.Callers(sc)
+			if len(crs) != 1 {
+				break
+			}
+			cr := crs[0]
+			if _, isCall := cr.Instr.(*ssa.Call); !isCall || !s.IsProcessMethod(cr.Caller) || cr.Caller.Parent() != nil {
+				break
+			}
+			sc = cr.Caller
+		}
+		s.StopCores[i] = sc
+	}
 	// RestartDecision: bool-returning *Process methods that read RestartPolicy.Restart
 	for _, f := range p.FuncsOfPkg("app") {
 		if !s.IsProcessMethod(f) || f.Parent() != nil {
@@ -158,6 +176,31 @@ func (p *Prog) Selectors() *Sel {
 		})
 		if n > 0 {
 			s.Gates = appendUniq(s.Gates, f)
+		}
+	}
+	// A gate whose per-dependency switch was extracted: the function holding the comparisons does not iterate
+	// depends_on itself; the function that does (and calls it inside that iteration) is the gate the goroutine
+	// calls. Gates then names that outer function and GateSwitch[outer] the inner one.
+	s.GateSwitch = map[*ssa.Function]*ssa.Function{}
+	s.GateSwitchCall = map[*ssa.Function]*ssa.Call{}
+	rangesDeps := func(f *ssa.Function) bool {
+		return len(FindInstrs(f, func(in ssa.Instruction) bool {
+			rg, ok := in.(*ssa.Range)
+			return ok && PathOf(rg.X).LastField() == s.FDependsOn
+		})) > 0
+	}
+	for i, inner := range s.Gates {
+		if rangesDeps(inner) {
+			continue
+		}
+		for _, cr := range p.Callers(inner) {
+			call, isCall := cr.Instr.(*ssa.Call)
+			if !isCall || !rangesDeps(cr.Caller) || InnermostLoopOf(call) == nil {
+				continue
+			}
+			s.Gates[i] = cr.Caller
+			s.GateSwitch[cr.Caller] = inner
+			s.GateSwitchCall[cr.Caller] = call
 		}
 	}
 	// RunEntry: *Process methods (not closures) from which Launch may be reached and that
